@@ -58,7 +58,7 @@ def job_calendar_steps():
         ex.prove(st, eq(posix_wd(Y), fmod(add(fmod(add(fdiv(J(Y), DAY), 3), 7), 1), 7)), "weekday of January 1 read from its ordinal (1970-01-01 is a Thursday) is the rata-die weekday")
     return ex.execute(h)
 
-def job_extend(N=1, T=2):
+def job_extend(N=1, T=2, stdonly=False):
     mod = tz.module()
     ex = symex.Executor(mod, solver=smt.Solver("cvc5", 120000, logic="QF_UFNIA", log=os.environ.get("VERIF_SOLVER_LOG")), tlimit_ms=120000)
     tz.install_contracts(ex)
@@ -88,7 +88,11 @@ def job_extend(N=1, T=2):
         LY0 = ex.fresh("LY0"); ex.inputs[LY0.name] = LY0
         lastcs = add(last_time, last_off)
         # ---- environment of ExtendTransitions
-        def c_empty(ex, st, args): return 0                       # future_spec_ and dst_abbr are non-empty: a footer with a DST part
+        def c_empty(ex, st, args):
+            # future_spec_ is non-empty; dst_abbr (the string at offset 40 of the PosixTimeZone) is empty for a standard-time-only footer
+            p_ = args[0]; pz_ = st.user.get("posix")
+            if stdonly and pz_ is not None and p_.obj == pz_.obj and not smt.is_sym(sub(p_.off, pz_.off)) and sub(p_.off, pz_.off) == 40: return 1
+            return 0
         def c_nop(ex, st, args): return None
         def c_parse(ex, st, args):
             pz = args[1]
@@ -185,8 +189,15 @@ def job_extend(N=1, T=2):
         ex.assume(st, and_(le(-YEAR_LIM + 500, LY0), le(LY0, YEAR_LIM - 500)))
         ex.assume(st, and_(le(Jf(LY0), lastcs), lt(lastcs, Jf(add(LY0, 1))), step_facts(LY0)))
         def k(st, rv):
-            if smt.is_sym(rv) or rv != 1: return          # a return of false (no type for the rule / all-year forms) is not under test here
-            if "iter_year" not in st.user: return          # std-only or all-year-DST footers: no expansion (EquivTransitions paths)
+            if "iter_year" not in st.user:
+                # no expansion: a standard-time-only footer, or DST in force all year.  The footer is accepted iff the last recorded
+                # transition already has the footer's (only) type - same index, or same offset, flag and abbreviation
+                want_ti = std_ti if stdonly else dst_ti
+                ok = rv if (isinstance(rv, bool) or (smt.is_sym(rv) and rv.sort == "B")) else ne(rv, 0)
+                ex.prove(st, smt.iff(ok, J.equiv(z, z.ty[N - 1], want_ti)), "ExtendTransitions without expansion (%s): true iff the last recorded transition's type is equivalent to the footer's %s type" % ("standard-time-only footer" if stdonly else "all-year DST", "standard" if stdonly else "DST"))
+                ex.prove(st, eq(ex.load(st, Ptr(zo, 160), I8), 0), "extended_ stays false when nothing was expanded")
+                return
+            if smt.is_sym(rv) or rv != 1: return          # a return of false (no type for the rule) is not under test here
             check_pushes(ex, st, "final year")
             ex.prove(st, eq(st.user["iter_year"], add(LY0, 401)), "ExtendTransitions stops exactly after the 401st year beyond the last recorded one")
             ex.prove(st, eq(ex.load(st, Ptr(zo, 160), I8), 1), "extended_ is set when the rule was expanded")
